@@ -221,6 +221,11 @@ func mutateTiles(r *core.Rng, a []c20Tile, maxLen int) ([]c20Tile, string) {
 }
 
 func (C20) Gen(r *core.Rng, tier string, emit func(string)) {
+	if tier == "thorough" {
+		emit = cliDup(emit, []string{"sync", "mksync"}, 5, 150)
+	} else {
+		emit = cliDup(emit, []string{"sync", "mksync"}, 5, 25)
+	}
 	nSync, nMk, nFault, nSmall := 70, 30, 90, 60
 	if tier == "thorough" {
 		nSync, nMk, nFault, nSmall = 3000, 600, 2000, 1500
@@ -464,7 +469,10 @@ var reChunks = regexp.MustCompile(`need (\d+) chunks`)
 
 // runMakesync runs the real Makesync in a child process (a panic in one of its goroutines cannot be
 // recovered in-process) and classifies the outcome.
-func runMakesync(path string, kb int) string {
+func runMakesync(cli bool, path string, kb int) string {
+	if cli {
+		return cliMakesync(path, kb)
+	}
 	cmd := exec.Command(os.Args[0], "mksyncchild", path, strconv.Itoa(kb))
 	var stderr bytes.Buffer
 	cmd.Stderr = &stderr
@@ -480,6 +488,42 @@ func runMakesync(path string, kb int) string {
 		return "panic:makesync:" + strings.ReplaceAll(trunc(first, 80), " ", "_")
 	}
 	return strings.TrimSpace(string(out))
+}
+
+// cliMakesync: `pmtiles makesync <archive> --block-size-kb=N` through the real binary, classified like the
+// child; the version the binary stamps into the header line ("dev") is rewritten to the harness's "v"
+func cliMakesync(path string, kb int) string {
+	bin := os.Getenv("VERIF_CLI")
+	if bin == "" {
+		return "no-cli-binary"
+	}
+	cmd := exec.Command(bin, "makesync", path, fmt.Sprintf("--block-size-kb=%d", kb))
+	var stdout, stderr bytes.Buffer
+	cmd.Stdout, cmd.Stderr = &stdout, &stderr
+	if err := cmd.Run(); err != nil {
+		for _, l := range strings.Split(stderr.String(), "\n") {
+			if strings.HasPrefix(l, "panic:") || strings.HasPrefix(l, "fatal error:") {
+				if strings.Contains(l, "Invalid clustering") {
+					return "err:badclustering"
+				}
+				return "panic:makesync:" + strings.ReplaceAll(trunc(l, 80), " ", "_")
+			}
+		}
+		m := stdout.String()
+		switch {
+		case !strings.Contains(m, "Failed to makesync archive, "):
+			return "panic:makesync:exit_without_message:" + strings.ReplaceAll(trunc(err.Error(), 40), " ", "_")
+		case strings.Contains(m, "clustered"):
+			return "err:notclustered"
+		case strings.Contains(m, "magic") || strings.Contains(m, "spec version") || strings.Contains(m, "header"):
+			return "err:header"
+		}
+		return "err:iterate"
+	}
+	if sf, err := os.ReadFile(path + ".sync"); err == nil {
+		os.WriteFile(path+".sync", bytes.Replace(sf, []byte(`"version":"dev"`), []byte(`"version":"v"`), 1), 0o644)
+	}
+	return "ok"
 }
 
 // MksyncChild: `vh mksyncchild <archive> <blockSizeKb>`
@@ -517,6 +561,7 @@ func MksyncChild(args []string) {
 
 func (C20) RunGo(line string) string {
 	body, _ := stripComment(strings.Fields(line))
+	cliMode, body := splitCLI(body)
 	switch body[0] {
 	case "mksync":
 		kb, _ := strconv.Atoi(body[1])
@@ -528,7 +573,7 @@ func (C20) RunGo(line string) string {
 		defer os.RemoveAll(dir)
 		p := dir + "/b.pmtiles"
 		os.WriteFile(p, b, 0o644)
-		if r := runMakesync(p, kb); r != "ok" {
+		if r := runMakesync(cliMode, p, kb); r != "ok" {
 			return r
 		}
 		sf, err := os.ReadFile(p + ".sync")
@@ -549,7 +594,7 @@ func (C20) RunGo(line string) string {
 		defer os.RemoveAll(dir)
 		bp := dir + "/b.pmtiles"
 		os.WriteFile(bp, b, 0o644)
-		if r := runMakesync(bp, kb); r != "ok" {
+		if r := runMakesync(cliMode, bp, kb); r != "ok" {
 			if strings.HasPrefix(r, "panic") {
 				return r
 			}
@@ -574,6 +619,12 @@ func (C20) RunGo(line string) string {
 		defer srv.Close()
 		url := "http://" + ln.Addr().String() + "/b.pmtiles"
 		cmd := exec.Command(os.Args[0], "syncchild", ap, url, dry)
+		if cliMode {
+			if os.Getenv("VERIF_CLI") == "" {
+				return "no-cli-binary"
+			}
+			cmd = exec.Command(os.Args[0], "syncclichild", ap, url, dry)
+		}
 		// schedules: the hash workers and download threads run on 1, 2, 4 or 16 Ps, fixed per case
 		cmd.Env = append(os.Environ(), fmt.Sprintf("GOMAXPROCS=%d", []int{1, 2, 4, 16}[(len(body[4])+len(body[5]))%4]))
 		var stderr bytes.Buffer
@@ -710,6 +761,34 @@ func SyncChild(args []string) {
 	fmt.Printf("ok matched=%s/%s chunks=%s\n", m[1], m[2], c[1])
 }
 
+// SyncCLIChild: the same report as SyncChild, from `pmtiles sync <existing> <new> [--dry-run]` run through the binary
+func SyncCLIChild(args []string) {
+	a := []string{"sync", args[0], args[1]}
+	if args[2] == "1" {
+		a = append(a, "--dry-run")
+	}
+	cmd := exec.Command(os.Getenv("VERIF_CLI"), a...)
+	var stdout bytes.Buffer
+	cmd.Stdout = &stdout
+	cmd.Stderr = os.Stderr // a panic's trace reaches the parent
+	err := cmd.Run()
+	txt := stdout.String()
+	if err != nil {
+		if i := strings.LastIndex(txt, "Failed to sync archive, "); i >= 0 {
+			fmt.Println("err:" + strings.TrimSpace(txt[i+len("Failed to sync archive, "):]))
+			return
+		}
+		os.Exit(2) // died without reporting: the parent classifies it from stderr
+	}
+	m := reMatched.FindStringSubmatch(txt)
+	c := reChunks.FindStringSubmatch(txt)
+	if m == nil || c == nil {
+		fmt.Println("ok matched=?/? chunks=?")
+		return
+	}
+	fmt.Printf("ok matched=%s/%s chunks=%s\n", m[1], m[2], c[1])
+}
+
 func (C20) Agree(line, goOut, modelOut string) bool {
 	if i := strings.Index(goOut, " # "); i >= 0 {
 		goOut = goOut[:i]
@@ -728,7 +807,7 @@ func (C20) NonTrivial(line string) bool {
 }
 
 func (C20) Branch(line, goOut string) string {
-	t := strings.Fields(line)
+	_, t := splitCLI(strings.Fields(line))
 	switch t[0] {
 	case "sync":
 		k := "sync"
@@ -800,6 +879,7 @@ func c20Unreferenced(b []byte) bool {
 
 func (C20) Oracle(line, goOut string) string {
 	body, _ := stripComment(strings.Fields(line))
+	_, body = splitCLI(body)
 	if strings.HasPrefix(goOut, "panic") || goOut == "hang" {
 		return "sync terminated abnormally: " + goOut
 	}
